@@ -5,7 +5,7 @@
                            operation:
         a<n> allocate → ptr<k>      u push frame → unit     p pop frame → pop0 | pop1
         o<p>,<off> offset → ptr<k>  r<p>,<n> read → b<hex>  w<p>,<hex> write → unit
-        c<to>,<from>,<n> copy → unit                        any panic → panic
+        c<to>,<from>,<n> copy → unit    g<p> get → unit     any panic → panic
    c20 switch <x> <default> <k>:<l>,<k>:<l>,…   the generated `Switch` arm on a `u32` examinee and
                            the model of Cranelift's Switch: `<evaluator label> <jit label|dup>`
 -/
@@ -60,6 +60,11 @@ def step (m : Memory) (tok : String) : Memory × String :=
         | .panic => (m, "panic")
       | _, _ => (m, "bad-op")
     | _ => (m, "bad-op")
+  | "g" => match rest.toNat? with
+    | some p => match Memory.get dbg m p with
+      | .ok _ => (m, "unit")
+      | .panic => (m, "panic")
+    | none => (m, "bad-op")
   | "c" => match nums rest with
     | some [t, f, n] => match Memory.copy dbg m t f n with
       | .ok m' => (m', "unit")
